@@ -432,6 +432,8 @@ def gen_model(rng, forward=False, unit_root=False):
             M[unit, :] = 0.0; M[:, unit] = 0.0
         A1[unit, unit] = 1.0
     c = np.array([r2(rng, -1, 1) if rng.chance(0.7) else 0.0 for _ in range(nx)])
+    if unit is not None and rng.chance(0.8) and c[unit] == 0.0:
+        c[unit] = rng.choice([-0.6, -0.25, 0.3, 0.5, 0.8])         # a random walk WITH drift: balanced-growth steady state
     ne = nx if rng.chance(0.7) else rng.randint(1, nx)
     E = np.zeros((nx, ne))
     for j in range(ne):
@@ -633,7 +635,8 @@ def databox_of(mc, data, start, deviation_of=None):
     for i in range(ny):
         v = np.array([data["y"][t][i] if data["mask"][t][i] else np.nan for t in range(data["nper"])], dtype=float)
         if deviation_of is not None:
-            v = v - deviation_of[i]
+            dv = np.asarray(deviation_of, dtype=float)
+            v = v - (dv[:, i] if dv.ndim == 2 else dv[i])
         if mc["logy"][i]:
             v = np.exp(v)
         db[f"o{i}"] = ir.Series(start=start, values=v)
@@ -671,7 +674,10 @@ def gen_e2e_case(rng, nper_max=10, unit_root=False, noncontiguous=False):
     mc = gen_model(rng, unit_root=unit_root)
     nper = rng.randint(5 if noncontiguous else (4 if unit_root else 3), nper_max)
     data = gen_data(rng, mc, nper)
-    case = {"mc": mc, "data": data, "deviation": bool(rng.chance(0.3)) and not unit_root, "rescale": bool(rng.chance(0.3))}
+    case = {"mc": mc, "data": data, "deviation": bool(rng.chance(0.5 if unit_root else 0.3)), "rescale": bool(rng.chance(0.3))}
+    if unit_root:
+        # the steady state is a path: the level the random walk starts from (deviation data are taken relative to this path)
+        case["unit_level"] = round(-5 + 10 * rng.random(), 1)
     if noncontiguous:
         # observations in the in-between periods are present in the databox and must not be used
         p_miss = 0.15
@@ -769,6 +775,28 @@ def e2e_span(nper):
     return start, start >> (start + (nper - 1))
 
 
+def steady_path(mc, nper, level=0.0):
+    """a deterministic solution path of the model (all shocks zero) on the log scale for log-variables: the constant steady state
+    for a stationary model; with a unit-root variable a time-varying path -- its level starts at `level` before the first period
+    and grows by the drift, and every observable loading on it moves along.  Returns (x path nper x nx, observable path nper x ny)."""
+    T, P, K, Z, H, D = companion(mc)
+    mean, _, xi = initial_law(mc)
+    sv = mean.copy()
+    if xi is not None:
+        sv = sv + xi[:, 0] * float(level)
+    nx = len(mc["logx"])
+    xs, ys = [], []
+    for _ in range(nper):
+        sv = T @ sv + K
+        xs.append(sv[:nx].copy()); ys.append(Z @ sv + D)
+    return np.array(xs).reshape(nper, nx), np.array(ys).reshape(nper, -1)
+
+
+def case_path(case):
+    """steady path of an e2e case over its data periods (level of the unit-root variable from the case)"""
+    return steady_path(case["mc"], case["data"]["nper"], case.get("unit_level", 0.0))
+
+
 def steady_logscale(mc):
     """steady state of (x, o) on the log scale for log-variables, from the coefficient arrays alone"""
     T, P, K, Z, H, D = companion(mc)
@@ -804,7 +832,7 @@ def prepare_e2e(case, m=None):
     mc, data = case["mc"], case["data"]
     m = m or build_model(mc)
     start, span = e2e_span(data["nper"])
-    dev_of = steady_logscale(mc)[1] if case["deviation"] else None
+    dev_of = case_path(case)[1] if case["deviation"] else None
     db = databox_of(mc, data, start, deviation_of=dev_of)
     kw = dict(stds_from_data=data["std_e_t"] is not None, deviation=case["deviation"], rescale_variance=case["rescale"])
     sel = case.get("sel")
@@ -831,17 +859,20 @@ def run_e2e(case, m=None, **extra):
 
 def e2e_batch(case) -> Batch:
     """joint Gaussian of the case from the coefficient arrays alone (companion form, own Lyapunov solve)"""
+    full_case = case
     case = effective(case)
     mc, data = case["mc"], case["data"]
     T, P, K, Z, H, D = companion(mc)
     mean, Q, xi = initial_law(mc)
-    ybar = Z @ mean + D
     nper = data["nper"]
     se = data["std_e_t"] or [mc["std_e"]] * nper
     sw = data["std_w_t"] or [mc["std_w"]] * nper
     y = [np.array(r, dtype=float) for r in data["y"]]
     if case["deviation"]:
-        y = [r - ybar for r in y]
+        # data minus the (possibly time-varying) steady path; constants dropped; a unit-root level stays a fixed unknown
+        lo = min(full_case["sel"]) if full_case.get("sel") is not None else 0
+        ypath = steady_path(mc, lo + nper, full_case.get("unit_level", 0.0))[1][lo:]
+        y = [r - ypath[t] for t, r in enumerate(y)]
         K = np.zeros_like(K); D = np.zeros_like(D); mean = np.zeros_like(mean)
     mk = lambda a: Batch(T, P, K, Z, H, D, a, Q, se, sw, [np.zeros(P.shape[1])] * nper, [np.zeros(H.shape[1])] * nper, y, data["mask"])
     B = mk(mean)
@@ -878,6 +909,7 @@ def lean_case_of_e2e(case, m):
     """the filter's own inputs (triangular solution, initial moments, per-period stds and data) as a direct-stream case"""
     from irispie.fords import initializers
     from irispie.fords.descriptors import Squid
+    full_case = case
     case = effective(case)
     mc, data = case["mc"], case["data"]
     sol = m._gets_solution(deviation=case["deviation"])
@@ -889,13 +921,14 @@ def lean_case_of_e2e(case, m):
     nper = data["nper"]
     se = data["std_e_t"] or [mc["std_e"]] * nper
     sw = data["std_w_t"] or [mc["std_w"]] * nper
-    ybar = steady_logscale(mc)[1] if case["deviation"] else None
+    lo = min(full_case["sel"]) if full_case.get("sel") is not None else 0
+    ybar = steady_path(mc, lo + nper, full_case.get("unit_level", 0.0))[1][lo:] if case["deviation"] else None
     ys, masks = [], []
     for t in range(nper):
         row, mrow = [], []
         for nm in y_names:
             i = int(nm[1:])
-            v = data["y"][t][i] - (ybar[i] if case["deviation"] else 0.0)
+            v = data["y"][t][i] - (ybar[t][i] if case["deviation"] else 0.0)
             if mc["logy"][i]:
                 v = float(np.log(np.exp(v)))
             row.append(float(v)); mrow.append(int(data["mask"][t][i]))
